@@ -193,6 +193,21 @@ PROPS['C02']['units'] = ['pwl_schema', 'pwl_tree']
 PROPS['C02']['level_text'] = PROPS['C02']['level_text'].replace('BOUNDED (bc compose', 'Also PROVED at tree level: AffTree::apply_func / apply_func_at_node compose the affine map on the left of exactly the terminals, keep decisions and cached states, and tree_fn(result, x) == tree_fn(old, x).map(a) for every x (the affine special case of the law). BOUNDED (bc compose')
 PROPS['C02']['assumptions'] = PROPS['C02']['assumptions'] + ASSUME_SLAB + ASSUME_PWL
 
+PROPS['C17'].update({
+    'level': 'other',
+    'units': ['pwl_schemas'],
+    'technique': 'Verus contracts on the extracted activation schemas of src/distill/schema.rs: forall dim, row, parameters, x: tree_fn(schema, x) == textbook definition (proved through the AffTree / Tree / AffFunc contracts) + bounded replay (bc schema) for the remaining generators',
+    'level_text': ('Mixed. PROVED modulo "f64 = reals" (Verus, every dimension, every component index, every finite parameter value, every input incl. breakpoints): partial_ReLU, partial_leaky_ReLU, '
+                   'partial_threshold, partial_hard_tanh (min <= max), partial_hard_shrink and partial_hard_sigmoid build a well-formed tree whose denoted function tree_fn(root, x) changes exactly the '
+                   'named component according to the textbook scalar function and leaves the others untouched. '
+                   'BOUNDED only (bc schema, exhaustive small dims on a lattice hitting all breakpoints and ties): argmax, class_characterization, inf_norm, from_poly, from_slice + remove_axes.'),
+    'design_ref': 'DESIGN.md §4 C17',
+    'assumptions': ASSUME_COMMON + ASSUME_SLAB + ASSUME_ND + ASSUME_PWL + ASSUME_BC + [
+        'rule F1: float literals / negations in schema.rs are replaced by flit / fneg / fdiv / fle helpers with exact-real contracts (each site listed as //@bodysub in units/pwl_schemas.rs); parameters are finite (not NaN / infinite)',
+        'the first key handed out by a fresh slab is 0 (Slab::fresh), which the generators rely on (add_child_node(0, ..))',
+    ],
+})
+
 NOT_APPLICABLE = {
     'C10': 'correctness of the external LP solver (minilp simplex) seen through a 20-line adapter: no contract within reach can decide it; a contract on solve_linprog would have to be assumed',
     'C19': 'fmt::Formatter / string output: Verus has no model of core::fmt output or str contents; deciding it means parsing output back, which is testing, not contract verification',
